@@ -1193,4 +1193,35 @@ class SeedTask(object):
       "            ys = reversed(range(miny, maxy+1))\n        xs = range(minx, maxx+1)\n\n        bounds", 'reversed(range()) is descending'),
     M('M-C03g-extent-intersection-min', 'mapproxy/layer.py', "            max(source[1], sub[1]),\n            min(source[2], sub[2]),", "            min(source[1], sub[1]),\n            min(source[2], sub[2]),", 'C03.g'),
     M('M-C03g-position-direction', 'mapproxy/image/__init__.py', "    if src_bbox[2] < bbox[2]:\n        sub_bbox[2] = src_bbox[2]", "    if src_bbox[2] > bbox[2]:\n        sub_bbox[2] = src_bbox[2]", 'C03.g'),
+    # ---------------------------------------------------------------- C04
+    M('M-C04a-store-first-only', 'mapproxy/cache/tile.py', "self.cache.store_tiles(splitted_tiles, dimensions=self.dimensions)",
+      "self.cache.store_tiles(splitted_tiles[:1], dimensions=self.dimensions)", 'C04.a'),
+    M('M-C04a-store-filtered', 'mapproxy/cache/tile.py', "splitted_tiles = [self.tile_mgr.apply_tile_filter(t) for t in splitted_tiles]",
+      "splitted_tiles = [self.tile_mgr.apply_tile_filter(t) for t in splitted_tiles if t.coord == main_tile.coord]", 'C04.a'),
+    E('E-C04a-alias', 'mapproxy/cache/tile.py', """                if meta_tile_image.cacheable:
+                    self.cache.store_tiles(splitted_tiles, dimensions=self.dimensions)
+                return splitted_tiles""", """                to_store = splitted_tiles
+                if meta_tile_image.cacheable:
+                    self.cache.store_tiles(to_store, dimensions=self.dimensions)
+                return splitted_tiles""", 'store via a local alias'),
+    M('M-C04a-split-skips-odd', 'mapproxy/cache/tile.py', """        if tile_coord is None:
+            continue
+        data = splitter.get_tile(crop_coord, tile_size)""", """        if tile_coord is None or tile_coord[0] % 2:
+            continue
+        data = splitter.get_tile(crop_coord, tile_size)""", 'C04.a|C16.d'),
+    M('M-C04a-bulk-stores-none', 'mapproxy/cache/tile.py', "self.cache.store_tiles([t for t in tiles if t.cacheable], dimensions=self.dimensions)",
+      "self.cache.store_tiles([t for t in tiles if t.cacheable][:1], dimensions=self.dimensions)", 'C04.a'),
+    M('M-C04b-unlocked-strategy', 'mapproxy/cache/tile.py', """        if not self.meta_grid:
+            created_tiles = self._create_single_tiles(tiles)""", """        if not self.meta_grid:
+            created_tiles = self._create_unlocked(tiles)""", 'C04.b'),
+    M('M-C04c-metasize-max', 'mapproxy/grid.py', "return min(self.meta_size[0], grid_size[0]), min(self.meta_size[1], grid_size[1])",
+      "return max(self.meta_size[0], grid_size[0]), min(self.meta_size[1], grid_size[1])", 'C04.c'),
+    M('M-C04c-metasize-axis', 'mapproxy/grid.py', "return min(self.meta_size[0], grid_size[0]), min(self.meta_size[1], grid_size[1])",
+      "return min(self.meta_size[0], grid_size[1]), min(self.meta_size[1], grid_size[0])", 'C04.c|C03.a'),
+    M('M-C04c-direct-meta-size', 'mapproxy/grid.py', """        meta_size = self._meta_size(z)
+
+        x0 = x//meta_size[0] * meta_size[0]""", """        meta_size = self.meta_size
+
+        x0 = x//meta_size[0] * meta_size[0]""", 'C04.c|C08.b'),
+    M('M-C04c-pattern-buffer', 'mapproxy/grid.py', "                    j*self.grid.tile_size[0] + buffers[0],", "                    j*self.grid.tile_size[0] + buffers[2],", 'C04.c'),
 ]
